@@ -56,13 +56,3 @@ def _adds(repo):
 def _fallible(repo):
     v = vm_fallible(repo)
     return v, "def c14VmFallible : List String := [" + ", ".join(lean_str(n) for n in v) + "]"
-
-
-@item("C14_POP_SPAN_BODY")
-def _pop_span(repo):
-    """the statements of `pop_span` (the model says: it only pops)"""
-    from extract_tables import fn_body
-    src = read(repo, "minijinja/src/compiler/codegen.rs")
-    body = fn_body(src, r"pub fn pop_span\(&mut self\)\s*\{")
-    stmts = [x.strip() for x in body.split(";") if x.strip()]
-    return stmts, "def c14PopSpanStatements : List String := [" + ", ".join(lean_str(n) for n in stmts) + "]"
